@@ -43,7 +43,7 @@ def run(ctx):
     d, rng = ctx.driver, ctx.rng
     quick = ctx.tier == "quick"
     nr = numpy.random.RandomState(ctx.seed * 17 + 3)
-    ncases = 24 if quick else 240
+    ncases = 90 if quick else 600
     for case in range(ncases):
         norb = rng.choice([2, 2, 3])
         w = C01.make_wfn(ctx, rng.choice(["single", "multi"]), norb, rng)
@@ -54,7 +54,7 @@ def run(ctx):
         desc = {"helper": which, "norb": norb, "sectors": sorted(w.sectors()), "case": case}
         try:
             if which.startswith("givens"):
-                kind = rng.choice(["generic", "real", "permutation", "near-identity"])
+                kind = rng.choice(["generic", "real", "permutation", "near-identity", "reflection", "signed-permutation"])
                 desc["unitary"] = kind
                 if which == "givens-unrestricted":
                     ww = C01.make_wfn(ctx, "spinbroken", norb, rng)
@@ -85,22 +85,39 @@ def run(ctx):
             t = rng.choice([0.3, 1.0, -0.7])
             sym = rng.random() < 0.6
             desc["vsym"] = sym
+            shape_kind = rng.choice(["dense", "dense", "lower", "strictly-lower", "upper", "holed", "diagonal"])
+            desc["vshape"] = shape_kind
+
+            def shaped(v):
+                if shape_kind == "lower":
+                    return numpy.tril(v)
+                if shape_kind == "strictly-lower":
+                    return numpy.tril(v, -1)
+                if shape_kind == "upper":
+                    return numpy.triu(v)
+                if shape_kind == "diagonal":
+                    return numpy.diag(numpy.diag(v))
+                if shape_kind == "holed":
+                    return v * (nr.uniform(size=v.shape) < 0.6)
+                return v
             if which == "cc-unrestricted":
                 n = 2 * norb
                 v = nr.randint(-2, 3, (n, n)).astype(float)
                 if sym:
                     v = v + v.T
+                else:
+                    v = shaped(v)
                 out = low_rank.evolve_fqe_charge_charge_unrestricted(w, v, t)
                 terms = [(v[p, q], [(p, 1), (p, 0), (q, 1), (q, 0)]) for p in range(n) for q in range(n) if v[p, q] != 0]
             elif which == "cc-alpha-beta":
-                v = nr.randint(-2, 3, (norb, norb)).astype(float)
+                v = shaped(nr.randint(-2, 3, (norb, norb)).astype(float))
                 out = low_rank.evolve_fqe_charge_charge_alpha_beta(w, v, t)
                 terms = [(v[p, q], [(2 * p, 1), (2 * p, 0), (2 * q + 1, 1), (2 * q + 1, 0)])
                          for p in range(norb) for q in range(norb) if v[p, q] != 0]
             elif which == "cc-sector":
                 sg = rng.choice(["alpha", "beta"])
                 s_ = 0 if sg == "alpha" else 1
-                v = nr.randint(-2, 3, (norb, norb)).astype(float)
+                v = shaped(nr.randint(-2, 3, (norb, norb)).astype(float))
                 out = low_rank.evolve_fqe_charge_charge_sector(w, v, sector=sg, time=t)
                 terms = [(v[p, q], [(2 * p + s_, 1), (2 * p + s_, 0), (2 * q + s_, 1), (2 * q + s_, 0)])
                          for p in range(norb) for q in range(norb) if v[p, q] != 0]
